@@ -1,5 +1,6 @@
 import NxProofs.Timers
 import NxProofs.Silence
+import NxProofs.KeepAlive
 import NxProofs.Gating
 import NxProps.C04
 /-!
@@ -20,9 +21,15 @@ heard the connection is `Dead` (DISCONNECTED, queues EOF, handshake and close ev
 (`served_is_doomed`, `connected_is_doomed`), with `D = t + (resend_limit+1)·resend_timeout` after any packet that
 wants an acknowledgement was sent at `t` (`unacked_is_doomed`), and it is re-established by every keep-alive that
 fires (`keepalive_rearms`), so the bound of the property counts from the last instant something was heard.
-Not proved: that every reachable CONNECTED state holds a keep-alive timer (it is armed by `serve` /
-`resumeHandshake` and only `cleanup` removes it; the tie observes every keep-alive of every crash-point session at its
-exact tick).
+The keep-alive is an invariant (`Conn.KA c P`: dead, or a keep-alive timer that no acknowledgement entry can cancel is
+due by `P`): established by `serve` and by the resumed `handshake()` (`served_has_keepalive`,
+`connected_has_keepalive`, with `handshake_handles_wf`), preserved by every datagram handled, every application call
+and every timer that fires (`keepalive_survives_*`), and pushed forward by at most one period while time passes
+(`keepalive_while_time_passes`). `established_silence_bound` composes the two: whatever the connection has been
+through, if a keep-alive is due by `s + ping_timeout` and nothing is heard after `s`, the connection is dead once the
+clock has passed `s + ping_timeout + (resend_limit+1)·resend_timeout`.
+Not proved (runtime, observed by the tie): that anyio wakes a waiter whose event is set / whose stream is EOF'd, and
+that the run settles (`Settled` is a hypothesis; it is what `advance` reaches with enough fuel).
 -/
 namespace Nx.C02
 open Nx Nx.Prudp Nx.L1
@@ -121,6 +128,45 @@ theorem unacked_is_doomed (env : Env) (now : Nat) (c : Conn) (p : Packet) (hs : 
 theorem keepalive_rearms (env : Env) (d : Nat) (c : Conn) (hs : c.sched.isSome) :
     (c.fireOne env d .ping).c.Doomed (d + (c.resendLimit + 1) * c.resendTimeout) :=
   fireOne_doomed env d c .ping hs
+
+/-! ### the keep-alive invariant -/
+
+theorem served_has_keepalive (c : Conn) (now : Time) (h : c.ackEvents = []) : (c.serve now).KA (now + c.pingTimeout) :=
+  serve_ka c now h
+
+theorem handshake_handles_wf (env : Env) (now : Time) (c : Conn) (creds : Option Creds) (h : c.ackEvents = []) :
+    AWF (c.handshake env now creds).c := handshake_awf env now c creds h
+
+theorem handles_wf_survives_traffic (env : Env) (now : Time) (c : Conn) (p : Packet) (h : AWF c) : AWF (c.handle env now p).c :=
+  (tfk_handle env now c p).awf h
+
+theorem connected_has_keepalive (c : Conn) (now : Time) (h1 : c.waitingHandshake = true) (h2 : c.handshakeEvent = true)
+    (h3 : c.state = STATE_CONNECTED) (h4 : c.sched.isSome) (hw : AWF c) :
+    (c.resumeHandshake now).c.KA (now + c.pingTimeout) := resumeHandshake_ka c now h1 h2 h3 h4 hw
+
+theorem keepalive_survives_traffic (env : Env) (now : Time) (c : Conn) (p : Packet) (P : Nat) (h : c.KA P) :
+    (c.handle env now p).c.KA P := ka_handle env now c p P h
+
+theorem keepalive_survives_send (env : Env) (now : Time) (c : Conn) (data : Bytes) (sub : Nat) (P : Nat) (h : c.KA P) :
+    (c.send env now data sub).c.KA P := ka_send env now c data sub P h
+
+theorem keepalive_survives_send_unreliable (env : Env) (now : Time) (c : Conn) (data : Bytes) (P : Nat) (h : c.KA P) :
+    (c.sendUnreliable env now data).c.KA P := ka_sendUnreliable env now c data P h
+
+theorem keepalive_survives_disconnect (env : Env) (now : Time) (c : Conn) (P : Nat) (h : c.KA P) :
+    (c.disconnect env now).c.KA P := ka_disconnect env now c P h
+
+theorem keepalive_survives_close (env : Env) (now : Time) (c : Conn) (P : Nat) (h : c.KA P) :
+    (c.close env now).c.KA P := ka_close env now c P h
+
+theorem keepalive_while_time_passes (env : Env) (T fuel : Nat) (c : Conn) (P : Nat) (h : c.KA P) :
+    (Conn.advance env fuel T c).1.KA (max P (T + c.pingTimeout)) := ka_advance env T fuel c P h
+
+/-- **the property's bound for an established connection**, from any instant `s` after which nothing is heard -/
+theorem established_silence_bound (env : Env) (fuel T s : Nat) (c : Conn) (h : c.KA (s + c.pingTimeout))
+    (hT : s + c.pingTimeout + (c.resendLimit + 1) * c.resendTimeout ≤ T)
+    (hset : (Conn.advance env fuel T c).1.Settled T) : (Conn.advance env fuel T c).1.Dead :=
+  L1.silence_bound env fuel T _ c (ka_doomed c _ h) hT hset
 
 /-! non-vacuity: a fresh client after `handshake()` is exactly in the situation of `connect_bound` -/
 example :
